@@ -100,6 +100,30 @@ pub fn run(ctx: &mut Ctx) {
             }
         };
         ctx.count(&format!("policies_groups_{}", groups.len()));
+        // sskr_split_flattened: as many shares as the policy says, all joinable to the original
+        if let Ok(Ok(flat_shares)) = trap::guard(|| enc.sskr_split_flattened(&spec, &key)) {
+            ctx.eval();
+            ctx.count("flattened_split_checks");
+            let want_n: usize = groups.iter().map(|(_, n)| *n).sum();
+            let refs: Vec<&Envelope> = flat_shares.iter().collect();
+            let joined = trap::guard(|| Envelope::sskr_join(&refs));
+            if flat_shares.len() != want_n || !matches!(&joined, Ok(Ok(x)) if x.is_identical_to(&wrapped)) {
+                ctx.violation("split-flattened", "sskr_split_flattened does not give all shares of the policy, or they do not join to the original", J::s(format!("{} of {:?}", gt, groups)));
+            }
+        }
+        // sskr_split_using with a deterministic generator: same shares both times
+        {
+            let mut r1 = bc_rand::make_fake_random_number_generator();
+            let mut r2 = bc_rand::make_fake_random_number_generator();
+            if let (Ok(Ok(a)), Ok(Ok(b))) = (trap::guard(|| enc.sskr_split_using(&spec, &key, &mut r1)), trap::guard(|| enc.sskr_split_using(&spec, &key, &mut r2))) {
+                ctx.count("split_using_checks");
+                let fa: Vec<Vec<u8>> = a.iter().flatten().map(env_bytes).collect();
+                let fb: Vec<Vec<u8>> = b.iter().flatten().map(env_bytes).collect();
+                if fa != fb {
+                    ctx.violation("split-using-nondeterministic", "sskr_split_using with equal generators gave different shares", J::s(format!("{} of {:?}", gt, groups)));
+                }
+            }
+        }
         ctx.nontrivial(crate::rng::fnv(&format!("{}{:?}", gt, groups)));
         let pol = format!("{} of {:?}", gt, groups);
         // every share keeps the digest-preserving encrypted subject
